@@ -143,11 +143,20 @@ class AstPrinter(AstVisitor):
         node.right.accept(self)
 
     def maybe_parentheses(self, outer: mparser.BaseNode, inner: mparser.BaseNode, parens: bool) -> None:
+        if isinstance(inner, mparser.ParenthesizedNode):
+            # Already printed with its own parentheses
+            parens = False
         if parens:
             self.append('(', inner)
         inner.accept(self)
         if parens:
             self.append(')', inner)
+
+    def visit_ParenthesizedNode(self, node: mparser.ParenthesizedNode) -> None:
+        node.lineno = self.curr_line or node.lineno
+        self.append('(', node)
+        node.inner.accept(self)
+        self.append(')', node)
 
     def visit_ArithmeticNode(self, node: mparser.ArithmeticNode) -> None:
         prec = precedence_level(node)
